@@ -132,7 +132,7 @@ Qed.
 (* ---- two variables *)
 Lemma simplex_step2_inv : forall s e p e' p' gv gw Qvv Qvw Qww, SInv s ->
   (p < P)%nat -> (p' < P)%nat ->
-  SInv (simplex_step2 qops qmone qtiny P C s e p e' p' gv gw Qvv Qvw Qww).
+  SInv (simplex_step2 qops qlowest qtiny P C s e p e' p' gv gw Qvv Qvw Qww).
 Proof.
   intros s e p e' p' gv gw Qvv Qvw Qww I Lp Lp'. unfold simplex_step2.
   destruct (Nat.eqb_spec e e') as [Ee|Ne].
@@ -145,8 +145,9 @@ Proof.
       assert (Hv : 0 <= av) by (apply A1; exact Lp).
       assert (Hw : 0 <= aw) by (apply A1; exact Lp').
       assert (Hub : 0 <= ub) by (unfold ub; lra).
-      destruct (solve_tri_in_triangle av aw gv gw Qvv Qvw Qww ub Hub) as (T1 & T2 & T3).
-      set (r := solve_tri qops qmone av aw gv gw Qvv Qvw Qww ub) in *.
+      assert (Hsum : av + aw <= ub) by (unfold ub; lra).
+      destruct (solve_tri_in_triangle_feasible av aw gv gw Qvv Qvw Qww ub Hv Hw Hsum) as (T1 & T2 & T3).
+      set (r := solve_tri qops qlowest av aw gv gw Qvv Qvw Qww ub) in *.
       destruct (Nat.eq_dec e0 e) as [->|N].
       * rewrite updf_same. apply (upd_varsum_inv (al s e) (vs s e)).
         -- apply I.
@@ -206,7 +207,7 @@ Proof.
 Qed.
 
 Lemma simplex_step_inv : forall s o, SInv s -> wfop P o ->
-  SInv (simplex_step qops qmone qtiny P C s o).
+  SInv (simplex_step qops qlowest qtiny P C s o).
 Proof.
   intros s [e p g Q | e p e' p' gv gw Qvv Qvw Qww] I W; cbn [simplex_step wfop] in *.
   - apply simplex_step1_inv; assumption.
@@ -215,7 +216,7 @@ Qed.
 
 (* every history of updateSMO calls *)
 Theorem simplex_run_inv : forall ops s, SInv s -> Forall (wfop P) ops ->
-  SInv (simplex_run qops qmone qtiny P C s ops).
+  SInv (simplex_run qops qlowest qtiny P C s ops).
 Proof.
   induction ops as [|o t IH]; intros s I W; cbn [simplex_run fold_left]; [exact I|].
   inversion W; subst. apply IH; [apply simplex_step_inv; assumption | assumption].
@@ -285,7 +286,7 @@ Example simplex_slack_witness :
   let C := 1 in
   let s0 := mkmc (fun (e p : nat) => if (p =? 1)%nat then (1 # 200000000000000) else 0) (fun _ => 0) in
   SInv 2 C s0 /\
-  let s1 := simplex_step qops qmone qtiny 2 C s0 (Op1 0%nat 0%nat 1 0) in
+  let s1 := simplex_step qops qlowest qtiny 2 C s0 (Op1 0%nat 0%nat 1 0) in
   C < asumQ (al s1 0%nat) 2.
 Proof.
   cbv zeta. split.
@@ -300,7 +301,7 @@ Theorem mc_dual_in_constraints_simplex :
   forall (P : nat) (C : Q), 0 < C ->
   forall (ops : list (mcop Q)) (s : mcst Q),
   SInv P C s -> Forall (wfop P) ops ->
-  let s' := simplex_run qops qmone qtiny P C s ops in
+  let s' := simplex_run qops qlowest qtiny P C s ops in
   SInv P C s' /\
   forall e, (forall p, (p < P)%nat -> 0 <= al s' e p /\ al s' e p <= C + qtiny) /\
             asum qops (al s' e) P <= C + qtiny.
